@@ -111,8 +111,9 @@ pub fn profile(prop: &str) -> Profile {
     use Kind::*;
     match prop {
         "C02" => {
-            let mut p = Profile::base(boost(uniform(&[Serde]), &[Drain, Consume, SDrain, SConsume, Entry, Insert, SInsert, Relocate], 30));
+            let mut p = Profile::base(boost(uniform(&[]), &[Drain, Consume, SDrain, SConsume, Entry, Insert, SInsert, Relocate], 30));
             p.forget = true;
+            p.serde_faults = true;
             p.src_tricks = true;
             p.bad_hints = true;
             p
@@ -132,7 +133,8 @@ pub fn profile(prop: &str) -> Profile {
             p
         }
         "C05" => {
-            let mut p = Profile::base(boost(uniform(&[Serde]), &[Overflow, Fill, WithCap, Disjoint, Lookup, Mutate, Remove, Retain, Entry, SInsert, SRemove], 25));
+            let mut p = Profile::base(boost(uniform(&[]), &[Overflow, Fill, WithCap, Disjoint, Lookup, Mutate, Remove, Retain, Entry, SInsert, SRemove], 25));
+            p.serde_faults = true;
             p.src_tricks = true;
             p.bad_hints = true;
             p
